@@ -140,6 +140,37 @@ func PathConds(fn *ssa.Function) (map[*ssa.BasicBlock]DNF, bool) {
 		if neg {
 			pos = !pos
 		}
+		if phi, isPhi := v.(*ssa.Phi); isPhi && phi.Block() != p && phi.Block().Dominates(p) && isBoolPhi(phi) {
+			// a boolean computed earlier (`x := a && b`) and tested here: x holds iff control entered
+			// the phi's block through an edge whose operand is true
+			q := phi.Block()
+			var d DNF
+			for i, e := range phi.Edges {
+				pp := q.Preds[i]
+				if q.Dominates(pp) {
+					continue
+				}
+				ec := edgeConds[Edge{pp, q}]
+				if cst, isC := e.(*ssa.Const); isC && cst.Value != nil {
+					if (cst.Value.String() == "true") == pos {
+						d = d.or(ec)
+					}
+					continue
+				}
+				ev, eneg := BoolCond(e)
+				epos := pos
+				if eneg {
+					epos = !epos
+				}
+				atom := Sig(ev)
+				if bo, isB := ev.(*ssa.BinOp); isB && bo.Op == token.NEQ {
+					atom = "(" + Sig(bo.X) + " == " + Sig(bo.Y) + ")"
+					epos = !epos
+				}
+				d = d.or(ec.and(Lit{Atom: atom, Pos: epos}))
+			}
+			return simplify(andDNF(pc, d))
+		}
 		if phi, isPhi := v.(*ssa.Phi); isPhi && phi.Block() == p {
 			// `x := a || b; if x` : expand over the phi's incoming edges
 			var d DNF
@@ -523,4 +554,40 @@ func DumpTable(p *Program, spec string, resIdx int) {
 // in the return's block (a tail call `return f(x)`).
 func isTailOf(r *ssa.Return, c ssa.CallInstruction) bool {
 	return c.Block() == r.Block() && len(r.Results) == 1
+}
+
+
+func isBoolPhi(phi *ssa.Phi) bool {
+	b, ok := phi.Type().Underlying().(*types.Basic)
+	return ok && b.Info()&types.IsBoolean != 0
+}
+
+// andDNF is the conjunction of two DNFs.
+func andDNF(a, b DNF) DNF {
+	var out DNF
+	seen := map[string]bool{}
+	for _, x := range a {
+		for _, y := range b {
+			t := x
+			ok := true
+			for _, l := range y {
+				var okAnd bool
+				t, okAnd = t.and(l)
+				if !okAnd {
+					ok = false
+					break
+				}
+			}
+			if ok {
+				if k := t.key(); !seen[k] {
+					seen[k] = true
+					out = append(out, t)
+				}
+			}
+			if len(out) > maxTerms {
+				return out
+			}
+		}
+	}
+	return out
 }
